@@ -287,7 +287,7 @@ pub fn run(ctx: &Ctx, c01: bool, c02: bool) -> i32 {
         let moves: Vec<String> = p.legal().iter().map(|(m, _)| m.lan()).collect();
         ctx.sample(json!({"state": p.fen(), "model_moves": moves, "checked": "implementation move set, attributes and successors equal the model's"}));
     }
-    let caps = !ctx.caps_hit.lock().unwrap().is_empty();
+    let caps = !ctx.no_caps();
     finish(
         ctx,
         states,
